@@ -48,7 +48,7 @@ def _observer_class():
     return Rec
 
 
-def build(driver, seed):
+def build(driver, seed, logger=True, default_interval=1):
     from quansino.mc.canonical import Canonical
     from quansino.mc.fbmc import ForceBias
     from quansino.mc.gcmc import GrandCanonical
@@ -57,22 +57,25 @@ def build(driver, seed):
     from quansino.operations.displacement import Ball
 
     log, traj = io.StringIO(), io.StringIO()
+    lkw = dict(trajectory=traj, logging_interval=default_interval)
+    if logger:
+        lkw["logfile"] = log
     pos = np.array([[1.0, 1.2, 0.9], [3.1, 2.2, 4.0], [4.4, 4.9, 2.1]])
     atoms = Atoms("Ar3", positions=pos, cell=[6.0] * 3, pbc=True)
     with warnings.catch_warnings():
         warnings.simplefilter("ignore")
         if driver == "Canonical":
             atoms.calc = calcs.PairSoft(centre=(3, 3, 3))
-            sim = Canonical(atoms, temperature=500.0, max_cycles=2, seed=seed, logfile=log, trajectory=traj, logging_interval=1)
+            sim = Canonical(atoms, temperature=500.0, max_cycles=2, seed=seed, **lkw)
             sim.add_move(DisplacementMove(np.arange(3), Ball(0.3)), name="d")
         elif driver == "GrandCanonical":
             atoms.calc = calcs.Zero()
-            sim = GrandCanonical(atoms, exchange_atoms=Atoms("Ar"), temperature=800.0, chemical_potential=-0.3, number_of_exchange_particles=3, max_cycles=2, seed=seed, logfile=log, trajectory=traj, logging_interval=1)
+            sim = GrandCanonical(atoms, exchange_atoms=Atoms("Ar"), temperature=800.0, chemical_potential=-0.3, number_of_exchange_particles=3, max_cycles=2, seed=seed, **lkw)
             sim.add_move(ExchangeMove(np.arange(3)), name="e")
             sim.add_move(DisplacementMove(np.arange(3), Ball(0.3)), name="d")
         elif driver == "ForceBias":
             atoms.calc = calcs.PairSoft(centre=(3, 3, 3))
-            sim = ForceBias(atoms, delta=0.1, temperature=500.0, seed=seed, logfile=log, trajectory=traj, logging_interval=1)
+            sim = ForceBias(atoms, delta=0.1, temperature=500.0, seed=seed, **lkw)
         else:
             raise ValueError(driver)
     Rec = _observer_class()
@@ -123,6 +126,7 @@ def model_calls(iv, total):
 
 def task(arg):
     driver, seed = arg["driver"], arg["seed"]
+    with_logger, div = arg.get("logger", True), arg.get("default_interval", 1)
     hows = ["run", "irun"] + ([] if driver == "ForceBias" else ["srun"])
     counters = {"evaluations": 0, "nontrivial": 0, "executions": 0}
     viol, seen = [], {}
@@ -137,7 +141,7 @@ def task(arg):
 
     def reference(total):
         if total not in refs:
-            sim, atoms, log, traj, recs = build(driver, seed)
+            sim, atoms, log, traj, recs = build(driver, seed, with_logger, div)
             sim.run(total)
             refs[total] = observe(sim, atoms, log, traj, recs)
             sim.close()
@@ -153,8 +157,8 @@ def task(arg):
                 counters["evaluations"] += 1
                 counters["executions"] += 1
                 rep = {"check": PID, "func": "task", "arg": {**arg, "lengths": [L], "only": [list(seq), list(assign)]}}
-                where = f"{driver}: calls {list(zip(assign, seq))}"
-                sim, atoms, log, traj, recs = build(driver, seed)
+                where = f"{driver}: calls {list(zip(assign, seq))} default observers: logger={with_logger} interval={div}"
+                sim, atoms, log, traj, recs = build(driver, seed, with_logger, div)
                 zero_first = seq[0] == 0 and total > 0
                 kind = "zero-length-call-first" if zero_first else "zero-length-call" if 0 in seq else "split" if L > 1 else "single"
                 try:
@@ -189,11 +193,16 @@ def task(arg):
                     iv = model_bad[0]
                     add(f"C15/{driver}/{kind}/observer-schedule/{'positive' if iv > 0 else 'negative'}-interval", f"observer with interval {iv} called at steps {model_bad[1]}, model says {model_bad[2]}; {where}", rep)
                     continue
-                if headers != [0]:
+                ndef = len(model_calls(div, total))
+                if with_logger and headers != [0]:
                     add(f"C15/{driver}/{kind}/header-not-once-first", f"header lines at {headers} of {len(lines)} log lines; {where}", rep)
                     continue
-                if len(lines) != 1 + total + 1:
-                    add(f"C15/{driver}/{kind}/log-line-count", f"{len(lines)} log lines for {total} steps; {where}", rep)
+                if with_logger and len(lines) != 1 + ndef:
+                    add(f"C15/{driver}/{kind}/default-logger-schedule", f"{len(lines) - 1} log rows for {total} steps, model says {ndef} (logging_interval {div}); {where}", rep)
+                    continue
+                nframes = sum(1 for l in got["traj"].splitlines() if l.startswith("Lattice") or "Properties=" in l)
+                if nframes != ndef:
+                    add(f"C15/{driver}/{kind}/default-trajectory-schedule", f"{nframes} trajectory frames for {total} steps, model says {ndef} (logging_interval {div}); {where}", rep)
                     continue
                 # (a) differential oracle against run(total)
                 diffs = []
@@ -218,6 +227,10 @@ def run(tier, seed):
         for s in seeds:
             for L in (1, 2, 3):
                 args.append({"driver": drv, "seed": s, "lengths": [L]})
+        # default observers without a logger / with other cadences (also negative: one-shot)
+        for lg, div in ((False, 1), (True, 2), (True, -2), (False, -1)):
+            for L in (1, 2) if tier == "quick" else (1, 2, 3):
+                args.append({"driver": drv, "seed": seeds[0], "lengths": [L], "logger": lg, "default_interval": div})
     for r in pmap(__name__, "task", args):
         acc.add(r)
     rep.violations = acc.violations
@@ -228,6 +241,7 @@ def run(tier, seed):
         "executions": acc.n("executions"),
         "split_or_zero_length_histories": acc.n("nontrivial"),
         "distinct_outcomes": len(acc.sets.get("outcomes", ())),
+        "default_observer_variants": "logger on/off x logging_interval in {1,2,-2,-1}",
         "bound": "all sequences of <= 3 run calls with lengths in {0,1,2,3}, every assignment of run/srun/irun (run/irun for ForceBias); 6 recording observers (intervals 1,2,3,-1,-2,-4) + logger + trajectory attached at once; real PCG64 with fixed seeds",
         "exhaustive": True,
         "samples": acc.samples[:2],
